@@ -135,3 +135,14 @@ CHECKS["C12"] = dict(
     assumptions=["interleavings are sampled by repetition, not enumerated", "virtual packet connections are closed at most once (documented precondition)"],
     units=[unit("props", ["Stream", "Packet"], "C12")],
 )
+
+CHECKS["C13"] = dict(
+    level="exploration",
+    rule="rapid-generated plans for 2..12 goroutines, each a list of 1..8 ListenStream(a) / ListenPacket(a) / Close(own handle) operations over 1..3 addresses on one ListenerManager (real sockets), "
+         "biased to listen-then-close so that the last close of an address races with listens on it; every case is repeated 50 times with a fresh manager and fresh ports. "
+         "Oracle: all calls return within a 5 s watchdog and succeed (an 'address already in use' on a socket this process itself still holds means the manager lost track of it), and a final sequential "
+         "listen+close on every address succeeds. On a watchdog hit the signature is derived from the goroutines blocked on a mutex in listeners.go. "
+         "Non-trivial = at least two goroutines operate on the same address and kind. Distinct = canonical case JSON.",
+    assumptions=["random schedules: the ABBA cycle fixed in /repo was hit in about 2% of racing pairs, so 50 repetitions per case give overwhelming detection probability for it; absence of other cycles is not established"],
+    units=[unit("props", ["Deadlock"], "C13", wedge_is_violation=True)],
+)
